@@ -179,6 +179,9 @@ def assemble(src: str, files: dict | None = None, rom: str | None = None, define
                 if nid not in index:
                     continue
                 rec = [index[nid], cname, a, pc, list(res) if isinstance(res, bytes) else res]
+                if meth == "pc_after" and cname in ("LabelNode", "BinaryNode"):
+                    nd = nodes[index[nid]]
+                    rec.append(getattr(nd, "symbol_name", None) or getattr(nd, "symbol_base", None))
                 if cname == "IncludeIpsNode" and meth == "emit":
                     # the records of the included patch (block_addr, block), as the node holds them
                     rec.append([[list(b), ba] for ba, b in getattr(nodes[index[nid]], "blocks", [])])
